@@ -1066,6 +1066,74 @@ def run(cx, rep):
     rep.ob("C04.ctl", "diverging-sites", nsites >= 5, "canary: expected >= 5 diverging sites, got %d" % nsites, sample={"canary_diverging_sites": nsites})
 
 
+def _anyof_unpacked_from(tree, a):
+    """`let Wrapper(x) = m;` / `let Wrapper { set: x } = m;` with `a` = x: the name of the local m whose only
+    field is moved out (helper of anyof_nonempty)"""
+    for st in walk(tree["body"]):
+        if st["k"] == "LetStmt" and st["pat"]["k"] in ("P.TupleStruct", "P.Struct") and isinstance(st.get("init"), dict):
+            binds = [b for b in walk(st["pat"]) if b["k"] == "P.Binding"]
+            init = st["init"]
+            if len(binds) == 1 and binds[0].get("lid") == a.get("lid") and a.get("lid") is not None \
+                    and init["k"] == "Path" and init.get("res") == "local":
+                return init["name"]
+    return None
+
+
+def _anyof_forwards_to(F, g):
+    """g has no dispatch of its own (no `match`, no `if`, no iterator adaptor other than for_each: nothing that
+    could skip an element) and calls exactly one other method of the same type on `self`: that method (helper of
+    anyof_nonempty)"""
+    t = F.hir.get(g)
+    if t is None:
+        return None
+    body = list(walk(t["body"]))
+    if any(m["k"] == "If" or (m["k"] == "Match" and m.get("src") == "Normal") for m in body):
+        return None
+    if any(m["k"] == "MethodCall" and (m.get("callee") or "").startswith("std::iter::Iterator::") and m["method"] != "for_each" for m in body):
+        return None
+    owner = g.rsplit("::", 1)[0]
+    tg = {m.get("callee") for m in body if m["k"] == "MethodCall" and (m.get("callee") or "").rsplit("::", 1)[0] == owner
+          and m["recv"]["k"] == "Path" and m["recv"].get("name") == "self" and m.get("callee") != g and m.get("callee") in F.hir}
+    return tg.pop() if len(tg) == 1 else None
+
+
+def _anyof_len_ge2(cond, truth, call):
+    """does `cond` evaluating to `truth` leave at least two elements in a vector handed to `call`?  Comparisons of
+    `<that vector>.len()` with an integer literal, either way round; `&&` (when true) / `||` (when false) of them
+    (helper of anyof_nonempty)"""
+    args = {y.get("lid") for a_ in call.get("args", []) for y in walk(a_) if y["k"] == "Path" and y.get("res") == "local"}
+
+    def is_len(e):
+        return e["k"] == "MethodCall" and e["method"] == "len" and any(y["k"] == "Path" and y.get("lid") in args for y in walk(e["recv"]))
+
+    def lit(e):
+        return int(e["v"]) if e["k"] == "Lit" and e.get("lit") == "int" and str(e.get("v", "")).isdigit() else None
+    if cond["k"] != "Binary":
+        return False
+    op, l, r = cond.get("op"), cond["l"], cond["r"]
+    if op in ("And", "Or"):
+        return (op == "And") == truth and (_anyof_len_ge2(l, truth, call) or _anyof_len_ge2(r, truth, call))
+    flip = {"Gt": "Lt", "Lt": "Gt", "Ge": "Le", "Le": "Ge"}
+    if is_len(r) and lit(l) is not None and op in flip:
+        op, l, r = flip[op], r, l
+    if not (is_len(l) and lit(r) is not None):
+        return False
+    k = lit(r)
+    if truth:
+        return (op == "Gt" and k >= 1) or (op == "Ge" and k >= 2)
+    return (op == "Le" and k >= 1) or (op == "Lt" and k >= 2)
+
+
+def _anyof_always_returns(e):
+    """a block whose last statement is `return ..` (helper of anyof_nonempty)"""
+    while e is not None and e["k"] == "BlockExpr":
+        b = e["block"]
+        e = b.get("expr") if b.get("expr") is not None else (b["stmts"][-1] if b.get("stmts") else None)
+        if e is not None and e["k"] in ("Semi", "ExprStmt"):
+            e = e.get("e")
+    return e is not None and e["k"] == "Ret"
+
+
 def anyof_nonempty(cx, rep, F):
     """every construction of RuntypeKind::AnyOf receives a set that cannot be empty: either a local set with a
     literal insert before, or the accumulator of a merger whose consume() inserts or recurses for EVERY element and
@@ -1086,6 +1154,11 @@ def anyof_nonempty(cx, rep, F):
         locs = [x["name"] for x in walk(a) if x["k"] == "Path" and x.get("res") == "local"]
         ok = False
         why = "argument is neither a literal set with an insert nor a merger accumulator"
+        # the accumulator moved out of the merger by a destructuring `let Merger(set) = merger;` (b101) is the
+        # merger's field just like `merger.0`
+        unpacked = _anyof_unpacked_from(t, a) if a["k"] == "Path" else None
+        if unpacked is not None:
+            a, locs = {"k": "Field"}, [unpacked]
         if a["k"] == "Path" and locs:
             ins = [x for x in walk(t["body"]) if x["k"] == "MethodCall" and x["method"] == "insert" and [y["name"] for y in walk(x["recv"]) if y["k"] == "Path" and y.get("res") == "local"] == locs and x["line"] < n["line"]]
             ok = len(ins) >= 1
@@ -1099,6 +1172,15 @@ def anyof_nonempty(cx, rep, F):
                 ct = F.hir.get(cg)
                 if ct is None:
                     continue
+                # a method that only hands EVERY element to another method of the merger (`absorb_all` -> `absorb`,
+                # b101) is followed: the dispatch is judged in the per-element method, and a call back into any
+                # method of this family is the recursion
+                family = [cg]
+                fw = _anyof_forwards_to(F, cg)
+                while fw is not None and fw not in family and len(family) < 3:
+                    family.append(fw)
+                    cg, ct = fw, F.hir[fw]
+                    fw = _anyof_forwards_to(F, cg)
                 ms = [m for m in walk(ct["body"]) if m["k"] == "Match" and m.get("src") == "Normal"]
                 ifs = [m for m in walk(ct["body"]) if m["k"] == "If"]
                 if len(ms) == 1 and not ifs:
@@ -1112,7 +1194,7 @@ def anyof_nonempty(cx, rep, F):
                 bad = []
                 for bbody, bline in branches:
                     inserts = any(x["k"] == "MethodCall" and x["method"] == "insert" for x in walk(bbody))
-                    recurses = any(x["k"] == "MethodCall" and x.get("callee") == cg for x in walk(bbody)) or any(x["k"] == "Call" and x.get("callee") == cg for x in walk(bbody))
+                    recurses = any(x["k"] in ("MethodCall", "Call") and x.get("callee") in family for x in walk(bbody))
                     if not inserts and not recurses:
                         bad.append(bline)
                 ok = not bad
@@ -1127,6 +1209,22 @@ def anyof_nonempty(cx, rep, F):
                         wild = [a2 for a2 in m["arms"] if a2["pat"]["k"] == "P.Wild"]
                         if {"0", "1"} <= lits and wild and any(y is x for y in walk(wild[0]["body"])):
                             guarded = True
+                    # `if vs.len() > 1 { return merger(vs) }` (b101): the call stands on the branch of a length test
+                    # that leaves at least two members, or behind an earlier `if <fewer than two> { return .. }`
+                    if m["k"] == "If":
+                        in_then = any(y is x for y in walk(m["then"]))
+                        in_else = m.get("else") is not None and any(y is x for y in walk(m["else"]))
+                        if (in_then and _anyof_len_ge2(m["cond"], True, x)) or (in_else and _anyof_len_ge2(m["cond"], False, x)):
+                            guarded = True
+                    if m["k"] == "Block":
+                        sts = m.get("stmts", [])
+                        tail = sts + ([m["expr"]] if m.get("expr") is not None else [])
+                        idx = next((j for j, s_ in enumerate(tail) if any(y is x for y in walk(s_))), None)
+                        for s_ in tail[:idx or 0]:
+                            e_ = s_.get("e") if s_["k"] in ("ExprStmt", "Semi") else s_
+                            if e_ is not None and e_["k"] == "If" and e_.get("else") is None and _anyof_len_ge2(e_["cond"], False, x) \
+                                    and _anyof_always_returns(e_["then"]):
+                                guarded = True
                 if not guarded:
                     ok = False
                     why = "%s calls the merger without first handling the 0- and 1-member cases" % g2
